@@ -282,6 +282,13 @@ func (b *Bundle) SourceForLocalPath(p string) (sourceaddrs.FinalSource, error) {
 		return nil, fmt.Errorf("path %q does not belong to the source bundle", absPath)
 	}
 
+	// Not every file name that can exist on disk can be written as a
+	// sub-path (a question mark cannot, for one), and SourceAddr panics
+	// for those.
+	if !sourceaddrs.ValidSubPath(subPath) {
+		return nil, fmt.Errorf("path %q cannot be written as a source address", absPath)
+	}
+
 	return pkgAddr.SourceAddr(subPath), nil
 }
 
